@@ -400,6 +400,68 @@ fn self_describing(t: &Term) -> bool {
 }
 
 /// C17: `Value::deserialize` driven by a term (the ValueVisitor machine)
+/// SerdeDe!AnnouncedSize: the sequence / map access that `Value` (as a Deserializer) hands to a visitor announces exactly the
+/// number of elements / entries left, at every step and at every depth.  `bad`: the first deviation.
+pub struct HintProbe {
+	pub bad: Option<String>,
+}
+struct ProbeVisitor;
+impl<'de> serde::de::Visitor<'de> for ProbeVisitor {
+	type Value = HintProbe;
+	fn expecting(&self, f: &mut std::fmt::Formatter) -> std::fmt::Result {
+		f.write_str("anything")
+	}
+	fn visit_bool<E>(self, _: bool) -> Result<HintProbe, E> { Ok(HintProbe { bad: None }) }
+	fn visit_i64<E>(self, _: i64) -> Result<HintProbe, E> { Ok(HintProbe { bad: None }) }
+	fn visit_u64<E>(self, _: u64) -> Result<HintProbe, E> { Ok(HintProbe { bad: None }) }
+	fn visit_f64<E>(self, _: f64) -> Result<HintProbe, E> { Ok(HintProbe { bad: None }) }
+	fn visit_str<E>(self, _: &str) -> Result<HintProbe, E> { Ok(HintProbe { bad: None }) }
+	fn visit_unit<E>(self) -> Result<HintProbe, E> { Ok(HintProbe { bad: None }) }
+	fn visit_seq<A: serde::de::SeqAccess<'de>>(self, mut seq: A) -> Result<HintProbe, A::Error> {
+		let mut hints = vec![];
+		let mut bad = None;
+		loop {
+			let h = seq.size_hint();
+			hints.push(h);
+			match seq.next_element::<HintProbe>()? {
+				Some(c) => bad = bad.or(c.bad),
+				None => break,
+			}
+		}
+		let n = hints.len() - 1;
+		for (i, h) in hints.iter().enumerate() {
+			if *h != Some(n - i) && bad.is_none() {
+				bad = Some(format!("sequence of {n} elements, {} left: size_hint() = {h:?}", n - i));
+			}
+		}
+		Ok(HintProbe { bad })
+	}
+	fn visit_map<A: serde::de::MapAccess<'de>>(self, mut map: A) -> Result<HintProbe, A::Error> {
+		let mut hints = vec![];
+		let mut bad = None;
+		loop {
+			let h = map.size_hint();
+			hints.push(h);
+			match map.next_entry::<serde::de::IgnoredAny, HintProbe>()? {
+				Some((_, c)) => bad = bad.or(c.bad),
+				None => break,
+			}
+		}
+		let n = hints.len() - 1;
+		for (i, h) in hints.iter().enumerate() {
+			if *h != Some(n - i) && bad.is_none() {
+				bad = Some(format!("map of {n} entries, {} left: size_hint() = {h:?}", n - i));
+			}
+		}
+		Ok(HintProbe { bad })
+	}
+}
+impl<'de> serde::Deserialize<'de> for HintProbe {
+	fn deserialize<D: serde::Deserializer<'de>>(d: D) -> Result<Self, D::Error> {
+		d.deserialize_any(ProbeVisitor)
+	}
+}
+
 pub fn replay_visitor(rep: &mut Report, rec: &J) {
 	let term = Term::from_json(&rec["d"], rep.counters.get("visitor_vectors").copied().unwrap_or(0) as u8);
 	if !self_describing(&term) {
@@ -412,7 +474,14 @@ pub fn replay_visitor(rep: &mut Report, rec: &J) {
 	FORGED_HINT.with(|h| h.set(hints[rep.counters["visitor_vectors"] as usize % hints.len()]));
 	let got = match guarded(|| Value::deserialize(TermDe(&term))) {
 		Err(p) => json!({"panic": p}),
-		Ok(Ok(v)) => json!({"ok": true, "v": project(&v)}),
+		Ok(Ok(v)) => {
+			// beyond the listed properties (extension aspect X03.size_hint): the sizes announced to visitors
+			if let Ok(Ok(HintProbe { bad: Some(what) })) = guarded(|| json_syntax::from_value::<HintProbe>(v.clone())) {
+				rep.mismatch("X03.size_hint", json!({"what": "Value as a Deserializer announces a size that is not the number of elements / entries left", "detail": what, "value": project(&v)}));
+			}
+			rep.count("size_hint_probes");
+			json!({"ok": true, "v": project(&v)})
+		}
 		Ok(Err(e)) => {
 			let m = e.to_string();
 			json!({"ok": false, "err": if m.starts_with("invalid type") { "invalid_type" } else if m.contains("invalid JSON number") || m.contains("invalid number") { "invalid_number" } else { "other" }, "msg": m})
